@@ -53,14 +53,14 @@ def generate(rng, run, tier):
         size = rng.randint(1, 8)
         rule = rng.choice(["name", "prefix", "datatype"])
         nkeys = size + 2
-        length = rng.choice([1, 5, 20, 60, 150, 400])
+        length = rng.choice([1, 5, 20, 60, 150, 400] + ([1500, 4000] if tier == "thorough" else []))
         return {"level": level, "size": size, "rule": rule, "empty_key": rng.random() < 0.5,
                 "ops": gen_walk(rng, nkeys, length)}
     names = rng.choice([8, 8, 9, 12])
     prefixes = rng.choice([0, 1, 2, 3, 4])
     datatypes = rng.choice([1, 2, 3])
     nkeys = names + 2
-    length = rng.choice([5, 20, 60, 150, 400])
+    length = rng.choice([5, 20, 60, 150, 400] + ([1500] if tier == "thorough" else []))
     ops = []
     for k in gen_walk(rng, nkeys, length):
         if rng.random() < 0.25:
